@@ -4,6 +4,7 @@
 
 use crate::core::*;
 use crate::enumerate::*;
+use crate::props::bddutil::small_builder;
 use crate::tt::{self, TT};
 use crate::walk::*;
 use rsdd::builder::bdd::RobddBuilder;
@@ -511,7 +512,18 @@ fn check_cnf_path(clauses: &[Clause], rep: &mut Report) {
         if !same_order(&*lin, &VarOrder::linear_order(n)) {
             fail("var-order-linear", "var_order_linear differs from VarOrder::linear_order".into(), rep);
         }
-        let perm: Vec<u64> = (0..n as u64).rev().collect();
+        // var_order_new on every permutation of the variables (3-cycles are not self-inverse)
+        for p in permutations(n) {
+            let pu: Vec<u64> = p.iter().map(|&v| v as u64).collect();
+            let vo = var_order_new(pu.as_ptr(), pu.len());
+            let nvo = VarOrder::new(&pu.iter().map(|&v| VarLabel::new(v)).collect::<Vec<_>>());
+            rep.evaluations += 1;
+            if !same_order(&*vo, &nvo) || (0..n).any(|i| (*vo).var_at_level(i).value_usize() != p[i]) {
+                fail("var-order-new", format!("var_order_new({:?}) differs from VarOrder::new on the same sequence", p), rep);
+            }
+            drop(Box::from_raw(vo));
+        }
+        let perm: Vec<u64> = if n >= 3 { let mut q: Vec<u64> = (1..n as u64).collect(); q.push(0); q } else { (0..n as u64).rev().collect() };
         let von = var_order_new(perm.as_ptr(), perm.len());
         let nvon = VarOrder::new(&perm.iter().map(|&v| VarLabel::new(v)).collect::<Vec<_>>());
         if !same_order(&*von, &nvon) {
@@ -528,6 +540,15 @@ fn check_cnf_path(clauses: &[Clause], rep: &mut Report) {
         let mc = robdd_model_count(b, r);
         if mc != tt::count(f) as u64 {
             fail("model-count", format!("robdd_model_count = {}, the CNF has {} models", mc, tt::count(f)), rep);
+        }
+        {
+            // same diagram as the native builder under the same (rotated) order
+            let order: Vec<usize> = perm.iter().map(|&v| v as usize).collect();
+            let nb = small_builder(&order, 0);
+            let nr = nb.compile_cnf(&native);
+            if bdd_structure(*r) != bdd_structure(nr) {
+                fail("compile-cnf", format!("the diagram compiled through the C builder over var_order_new({:?}) differs structurally from the native one under that order", order), rep);
+            }
         }
         drop(Box::from_raw(r));
         free_bdd_manager(b);
